@@ -224,7 +224,7 @@ func hexJSON(b []byte) []byte { j, _ := json.Marshal(hexutil.Bytes(b)); return j
 
 // callRPC decodes the JSON arguments and invokes the handler. stage: 1 an argument was rejected,
 // 2 the handler ran.
-func callRPC(m rpcMethod, args [][]byte) int {
+func callRPC(m rpcMethod, args [][]byte, group string) int {
 	in := make([]reflect.Value, 0, len(m.params)+1)
 	if m.hasCtx {
 		in = append(in, reflect.ValueOf(context.Background()))
@@ -248,7 +248,12 @@ func callRPC(m rpcMethod, args [][]byte) int {
 		}
 		in = append(in, v.Elem())
 	}
-	out := m.fn.Call(in)
+	var out []reflect.Value
+	if group != "" {
+		grouped(group, func() { step(func() { out = m.fn.Call(in) }) })
+	} else {
+		out = m.fn.Call(in)
+	}
 	// results are serialised into the response
 	for _, o := range out {
 		if o.CanInterface() {
@@ -282,6 +287,18 @@ func TestC15A_RPC(t *testing.T) {
 	}()
 	defer close(busy)
 
+	// a handler that takes a JSON work object header receives whatever WorkObjectHeader.UnmarshalJSON
+	// let through: crashes on mutated documents are that decoder's "accepts incomplete object"
+	groupFor := func(m rpcMethod, how string) string {
+		if strings.HasPrefix(how, "arg ") {
+			for _, ty := range m.params {
+				if ty.String() == "*types.WorkObjectHeader" {
+					return "WorkObjectHeader.UnmarshalJSON/accepts-incomplete-object"
+				}
+			}
+		}
+		return ""
+	}
 	call := func(rt *rapid.T, m rpcMethod, args [][]byte, how, sig string) {
 		var txt []string
 		for _, a := range args {
@@ -293,7 +310,7 @@ func TestC15A_RPC(t *testing.T) {
 		stage := 0
 		current = m.name + " " + how
 		busy <- m.name
-		p.run(rt, func() { stage = callRPC(m, args) })
+		p.run(rt, func() { stage = callRPC(m, args, groupFor(m, how)) })
 		done <- struct{}{}
 		lbl := []string{"", "rejected:args", "handled"}[stage|btoi(stage == 0)]
 		if lastCrash != nil {
